@@ -2,7 +2,7 @@
 From Coq Require Import Lia Permutation Sorted.
 From Curies.model Require Import Str PyData Trie Conv Query Val Answer Spec CheckQ Mutate CheckM Loaders CheckL Reconcile CheckR.
 From Curies.proofs Require Import StrFacts TrieFacts DictFacts IndexFacts QueryFacts CheckFacts C04Facts MutateFacts
-  SortFacts ChainFacts PModelFacts.
+  SortFacts ChainFacts PModelFacts PModelM.
 
 (* ---------- decoding the observed records ---------- *)
 Lemma as_strs_vstrs l : as_strs (vstrs l) = Some l.
@@ -359,6 +359,201 @@ Proof.
 Qed.
 End Chain.
 
+
+(* ---------- the outcome code of chain follows the naive specification spec_chain_code ---------- *)
+(* The model's add_record follows CheckM.spec_step on the SORTED records of a consistent converter, and the result is only
+   known up to the order of the records and of the synonyms (norm_records).  The specification folds spec_step over its
+   own, unsorted and unnormalised, record list.  So: spec_step respects the equivalence "same records up to the order of the
+   records and the order of the synonyms inside each record". *)
+Lemma existsb_ext' {A} (f g : A -> bool) l : (forall x, f x = g x) -> existsb f l = existsb g l.
+Proof. intro E. induction l as [|a l IH]; simpl; [reflexivity|]. rewrite E, IH. reflexivity. Qed.
+Lemma existsb_perm {A} (f : A -> bool) l l' : Permutation l l' -> existsb f l = existsb f l'.
+Proof.
+  induction 1 as [|x l l' P IH|x y l|l l' l'' P1 IH1 P2 IH2]; simpl; auto.
+  - rewrite IH. reflexivity.
+  - destruct (f x), (f y); reflexivity.
+  - congruence.
+Qed.
+Lemma filter_map_norm {A B} (f : A -> B) (p : B -> bool) (q : A -> bool) l : (forall x, p (f x) = q x) ->
+  filter p (map f l) = map f (filter q l).
+Proof.
+  intro E. induction l as [|a l IH]; simpl; [reflexivity|]. rewrite E. destruct (q a); simpl; rewrite IH; reflexivity.
+Qed.
+
+(* sorted(xs) depends only on the multiset *)
+Lemma sle_sorted_perm_eq (l1 : list str) : forall l2,
+  StronglySorted (fun a b => str_leb a b = true) l1 -> StronglySorted (fun a b => str_leb a b = true) l2 ->
+  Permutation l1 l2 -> l1 = l2.
+Proof.
+  induction l1 as [|a l1 IH]; intros l2 S1 S2 P.
+  - apply Permutation_nil in P. auto.
+  - destruct l2 as [|b l2]; [apply Permutation_sym, Permutation_nil in P; discriminate|].
+    inversion S1 as [|? ? S1' F1]; subst. inversion S2 as [|? ? S2' F2]; subst.
+    rewrite Forall_forall in F1, F2.
+    assert (E: a = b).
+    { assert (Ha: In a (b :: l2)) by (eapply Permutation_in; [exact P|left; auto]).
+      assert (Hb: In b (a :: l1)) by (eapply Permutation_in; [apply Permutation_sym; exact P|left; auto]).
+      destruct Ha as [Ha|Ha]; auto. destruct Hb as [Hb|Hb]; auto.
+      apply str_leb_antisym; [apply F1; auto|apply F2; auto]. }
+    subst b. f_equal. apply IH; auto. eapply Permutation_cons_inv; eauto.
+Qed.
+Lemma sort_str_perm l l' : Permutation l l' -> sort_str l = sort_str l'.
+Proof.
+  intro P. apply sle_sorted_perm_eq.
+  - apply Sorted_StronglySorted; [intros a b c; apply str_leb_trans|apply sort_str_sorted].
+  - apply Sorted_StronglySorted; [intros a b c; apply str_leb_trans|apply sort_str_sorted].
+  - unfold sort_str. eapply perm_trans; [apply sort_perm|]. eapply perm_trans; [exact P|]. apply Permutation_sym, sort_perm.
+Qed.
+Lemma sort_str_eq_perm l l' : sort_str l = sort_str l' -> Permutation l l'.
+Proof.
+  intro E. eapply perm_trans; [apply Permutation_sym; apply (sort_perm str_leb)|].
+  fold (sort_str l). rewrite E. apply (sort_perm str_leb).
+Qed.
+Lemma mem_perm x l l' : Permutation l l' -> mem x l = mem x l'.
+Proof.
+  intro P. destruct (mem x l') eqn:E.
+  - apply mem_In. apply mem_In in E. eapply Permutation_in; [apply Permutation_sym; exact P|exact E].
+  - apply mem_false. apply mem_false in E. intro Hx. apply E. eapply Permutation_in; [exact P|exact Hx].
+Qed.
+
+Definition Nrm (rs : list record) : list record := map norm_record rs.
+(* the same records, up to the order of the records and of the synonyms *)
+Definition req (rs rs' : list record) : Prop := Permutation (Nrm rs) (Nrm rs').
+Lemma req_refl rs : req rs rs. Proof. apply Permutation_refl. Qed.
+Lemma req_sym a b : req a b -> req b a. Proof. apply Permutation_sym. Qed.
+Lemma req_trans a b c : req a b -> req b c -> req a c. Proof. apply perm_trans. Qed.
+Lemma req_perm a b : Permutation a b -> req a b. Proof. intro P. apply Permutation_map. exact P. Qed.
+Lemma req_sort rs : req (sort_records rs) rs.
+Proof. apply req_perm. unfold sort_records, sort_by_key. apply sort_perm. Qed.
+Lemma norm_records_req X Y : norm_records X = norm_records Y -> req X Y.
+Proof.
+  unfold norm_records. intro E. apply (f_equal as_records) in E. rewrite !as_records_vrecords in E. inversion E as [E'].
+  unfold req, Nrm. eapply perm_trans; [apply Permutation_sym; apply sort_perm|].
+  unfold sort_records, sort_by_key in E'. rewrite E'. apply sort_perm.
+Qed.
+
+Lemma norm_record_inv m m' : norm_record m = norm_record m' ->
+  r_prefix m = r_prefix m' /\ r_uri m = r_uri m' /\ Permutation (r_psyn m) (r_psyn m') /\ Permutation (r_usyn m) (r_usyn m') /\
+  r_pat m = r_pat m'.
+Proof.
+  destruct m as [p u ps us pat], m' as [p' u' ps' us' pat']. unfold norm_record. cbn [r_prefix r_uri r_psyn r_usyn r_pat].
+  intro E. inversion E as [[E1 E2 E3 E4 E5]]. repeat split; auto; apply sort_str_eq_perm; auto.
+Qed.
+
+Section ChainCode.
+Variable K : mcase.
+Notation fc := (fold_of (mc_fold K)).
+
+Lemma in_cs_perm cs a l l' : Permutation l l' -> in_cs fc cs a l = in_cs fc cs a l'.
+Proof. intro P. unfold in_cs. apply existsb_perm. exact P. Qed.
+Lemma in_cs_sort cs a l : in_cs fc cs a (sort_str l) = in_cs fc cs a l.
+Proof. apply in_cs_perm. unfold sort_str. apply sort_perm. Qed.
+
+Lemma matches_norm cs ext r : matches_record fc cs ext (norm_record r) = matches_record fc cs ext r.
+Proof.
+  unfold matches_record, norm_record. cbn [r_prefix r_uri r_psyn r_usyn r_pat]. f_equal.
+  - apply existsb_ext'. intro p. rewrite in_cs_sort. reflexivity.
+  - apply existsb_ext'. intro p. rewrite in_cs_sort. reflexivity.
+Qed.
+
+Lemma merged_syn_perm canon syn syn' news : Permutation syn syn' ->
+  sort_str (syn ++ dedup (filter (fun x => negb (mem x (canon :: syn))) news))
+  = sort_str (syn' ++ dedup (filter (fun x => negb (mem x (canon :: syn'))) news)).
+Proof.
+  intro P. apply sort_str_perm.
+  assert (E: filter (fun x => negb (mem x (canon :: syn))) news = filter (fun x => negb (mem x (canon :: syn'))) news).
+  { apply filter_ext. intro x. f_equal. apply mem_perm. apply perm_skip. exact P. }
+  rewrite E. apply Permutation_app_tail. exact P.
+Qed.
+
+Lemma norm_spec_merge ext m m' : norm_record m = norm_record m' ->
+  norm_record (spec_merge ext m) = norm_record (spec_merge ext m').
+Proof.
+  intro E. apply norm_record_inv in E as (Ep & Eu & Pp & Pu & Et).
+  unfold norm_record, spec_merge, all_prefixes, all_uris. cbn [r_prefix r_uri r_psyn r_usyn r_pat].
+  rewrite Ep, Eu, Et.
+  rewrite (merged_syn_perm (r_prefix m') (r_psyn m) (r_psyn m') _ Pp).
+  rewrite (merged_syn_perm (r_uri m') (r_usyn m) (r_usyn m') _ Pu). reflexivity.
+Qed.
+
+(* one step of the specification respects the equivalence *)
+Lemma spec_add_req rs rs' ext cs : req rs rs' ->
+  fst (spec_add K rs ext cs true) = fst (spec_add K rs' ext cs true) /\
+  req (snd (spec_add K rs ext cs true)) (snd (spec_add K rs' ext cs true)).
+Proof.
+  intro Q. unfold spec_add. cbv zeta.
+  assert (PF: Permutation (Nrm (filter (matches_record fc cs ext) rs)) (Nrm (filter (matches_record fc cs ext) rs'))).
+  { unfold Nrm. rewrite <- !(filter_map_norm norm_record (matches_record fc cs ext) (matches_record fc cs ext))
+      by (intro x; apply matches_norm).
+    apply Permutation_filter'. exact Q. }
+  pose proof (Permutation_length PF) as L. unfold Nrm in L. rewrite !map_length in L.
+  destruct (filter (matches_record fc cs ext) rs) as [|m [|m2 rest]];
+    destruct (filter (matches_record fc cs ext) rs') as [|m' [|m2' rest']]; try discriminate L; cbn [fst snd].
+  - split; [reflexivity|]. unfold req, Nrm. rewrite !map_app. apply Permutation_app_tail. exact Q.
+  - split; [reflexivity|]. unfold Nrm in PF. cbn [map] in PF. apply Permutation_length_1 in PF.
+    pose proof (norm_spec_merge ext m m' PF) as EM. apply norm_record_inv in PF as (Ep & _).
+    unfold req, Nrm. rewrite !map_map.
+    assert (G: forall m0 l,
+               map (fun x => norm_record (if str_eqb (r_prefix x) (r_prefix m0) then spec_merge ext m0 else x)) l
+               = map (fun nr => if str_eqb (r_prefix nr) (r_prefix m0) then norm_record (spec_merge ext m0) else nr)
+                     (map norm_record l)).
+    { intros m0 l. rewrite map_map. apply map_ext. intro x. cbn [norm_record r_prefix].
+      destruct (str_eqb (r_prefix x) (r_prefix m0)); reflexivity. }
+    rewrite (G m rs), (G m' rs'). rewrite Ep, EM. apply Permutation_map. exact Q.
+  - split; [reflexivity|exact Q].
+Qed.
+
+(* absorbing a list of records: the model (on a consistent converter) and the specification (on any equivalent record list) agree
+   on the outcome *)
+Lemma absorb_code sens todo : forall c rs, swf c -> req (recs c) rs ->
+  match absorb fc (Val c) todo sens with
+  | Val _ => spec_absorb_code fc sens rs todo = 0%Z
+  | Raise _ => spec_absorb_code fc sens rs todo = 1%Z
+  end.
+Proof.
+  induction todo as [|r todo IH]; intros c rs S Q; [reflexivity|].
+  rewrite absorb_cons. cbn [spec_absorb_code].
+  change (spec_step fc rs (chain_op sens r)) with (spec_add K rs r sens true).
+  pose proof (add_record_spec K c r sens true S) as A.
+  destruct (spec_add_req (sort_records (recs c)) rs r sens (req_trans _ _ _ (req_sort (recs c)) Q)) as [E1 E2].
+  destruct (add_record fc c r sens true) as [c'|e].
+  - destruct A as (S' & _ & Hc & Hn).
+    destruct (spec_add K rs r sens true) as [code acc'] eqn:SA. cbn [fst snd] in E1, E2.
+    rewrite Hc in E1. subst code. change (Z.eqb 0 0) with true. cbv iota.
+    apply IH; [exact S'|].
+    eapply req_trans; [apply req_sym; apply req_sort|]. eapply req_trans; [apply norm_records_req; exact Hn|exact E2].
+  - destruct A as (_ & Hs). rewrite absorb_raise. rewrite Hs in E1. cbn [fst] in E1.
+    destruct (spec_add K rs r sens true) as [code acc']. cbn [fst] in E1. subst code. reflexivity.
+Qed.
+
+Lemma flat_recs_sorted ins cs : Forall2 link ins cs -> flat_map recs cs = flat_map sort_records ins.
+Proof.
+  induction 1 as [|rs c ins cs L F IH]; [reflexivity|]. cbn [flat_map]. rewrite IH, (link_recs _ _ L). reflexivity.
+Qed.
+
+Lemma chain_code ins cs sens : Forall2 link ins cs ->
+  match chain fc cs sens with
+  | Val _ => spec_chain_code fc ins sens = 0%Z
+  | Raise _ => spec_chain_code fc ins sens = 1%Z
+  end.
+Proof.
+  intro F. pose proof (flat_recs_sorted ins cs F) as FL.
+  destruct F as [|rs c ins cs L F]; [reflexivity|].
+  rewrite chain_absorb by discriminate. rewrite FL. unfold spec_chain_code.
+  apply (absorb_code sens _ empty_conv []); [apply empty_swf|apply req_refl].
+Qed.
+End ChainCode.
+
+(* for the casefold table of a derivation case *)
+Definition mcase_of_fold (tbl : list (chr * str)) : mcase :=
+  {| mc_recs := []; mc_delim := []; mc_ops := []; mc_strs := []; mc_pairs := []; mc_fold := tbl |}.
+Theorem chain_code_spec tbl ins cs sens : Forall2 link ins cs ->
+  match chain (fold_of tbl) cs sens with
+  | Val _ => spec_chain_code (fold_of tbl) ins sens = 0%Z
+  | Raise _ => spec_chain_code (fold_of tbl) ins sens = 1%Z
+  end.
+Proof. exact (chain_code (mcase_of_fold tbl) ins cs sens). Qed.
+
 Lemma P_chain_val k sens cs R : Forall2 link (rc_inputs k) cs -> chain (fold_of (rc_fold k)) cs sens = Val R ->
   P_chain k sens 0 (map (answer R) (rbattery k)) = true.
 Proof.
@@ -367,7 +562,8 @@ Proof.
   rewrite result_records_model.
   pose proof (chain_swf _ _ _ _ H) as S. pose proof (chain_delim _ _ _ _ H) as D.
   apply andb_true_intro; split; [apply andb_true_intro; split; [apply andb_true_intro; split; [apply andb_true_intro; split;
-    [apply andb_true_intro; split; [apply andb_true_intro; split|]|]|]|]|].
+    [apply andb_true_intro; split; [apply andb_true_intro; split; [apply andb_true_intro; split|]|]|]|]|]|].
+  - pose proof (chain_code_spec (rc_fold k) _ _ sens F) as C. rewrite H in C. rewrite C. reflexivity.
   - apply result_consistent_model; auto.
   - apply (union_p1 _ _ _ _ _ F H).
   - apply (union_p2 _ _ _ _ _ F H).
@@ -416,10 +612,43 @@ Proof.
     + apply (P_chain_val k sens cs R F E).
     + destruct (chain_outcome (fold_of (rc_fold k)) cs sens) as [E'|(R' & E' & _)]; [|congruence].
       rewrite E in E'. inversion E'; subst e. cbn [derive_code]. unfold P_chain. cbv zeta.
-      change (Z.eqb 1 1) with true. cbv iota. apply orb_true_r.
+      change (Z.eqb 1 1) with true. cbv iota.
+      pose proof (chain_code_spec (rc_fold k) _ _ sens F) as C. rewrite E in C. rewrite C. reflexivity.
   - (* get_subconverter *)
     destruct (rc_inputs k) as [|i1 irest] eqn:Ei; [discriminate|].
     inversion F as [|? c1 ? crest L F' E1 E2]; subst.
     destruct (P_sub_val k P i1 irest c1 Ei L) as (S & E & HP). rewrite E. exact HP.
 Qed.
 Print Assumptions P_C09_model.
+Print Assumptions chain_code_spec.
+
+(* ---------- the specification of the outcome code is not vacuous, and the order inside an input matters ---------- *)
+Definition rr (p u : str) ps us := {| r_prefix := p; r_uri := u; r_psyn := ps; r_usyn := us; r_pat := None |}.
+Definition ascii_tbl : list (chr * str) := map (fun c => (c, [c + 32]%N)) [65; 66; 67]%N.   (* A->a, B->b, C->c *)
+Definition mkcase (ins : list (list record)) (sens : bool) : rcase :=
+  {| rc_inputs := ins; rc_op := DChain sens; rc_strs := []; rc_pairs := []; rc_fold := ascii_tbl |}.
+(* a:x/ and b:y/ are separate records; the third converter's record c:x/ with URI prefix synonym y/ bridges them: ValueError,
+   in the model and in the specification *)
+Example chain_code_bridge :
+  let ins := [[rr [97] [120;47] [] []]; [rr [98] [121;47] [] []]; [rr [99] [120;47] [] [[121;47]]]]%N in
+  valid_r (mkcase ins true) = true /\ model_robs (mkcase ins true) = VList [VInt 1; VList []; VList []] /\
+  spec_chain_code (fold_of ascii_tbl) ins true = 1%Z /\
+  spec_chain_code (fold_of ascii_tbl) (firstn 2 ins) true = 0%Z.
+Proof. vm_compute. repeat split; reflexivity. Qed.
+(* no converter at all: ValueError *)
+Example chain_code_no_input : forall fc sens, spec_chain_code fc [] sens = 1%Z.
+Proof. reflexivity. Qed.
+(* one converter without records: accepted *)
+Example chain_code_empty_input : forall fc sens, spec_chain_code fc [[]] sens = 0%Z.
+Proof. reflexivity. Qed.
+(* The records of an input reach chain sorted by canonical prefix, and the order decides (case-insensitive mode): the second input
+   is given as [b:y/ ; B:w/ (URI prefix synonym x/)].  Sorted, B comes first, is merged into a:x/ (shared x/), and then b matches only
+   that merged record: accepted.  In the given order b would be appended first and B would then match two records: a
+   specification folding over the unsorted input would wrongly demand ValueError. *)
+Example chain_code_order_matters :
+  let ins := [[rr [97] [120;47] [] []]; [rr [98] [121;47] [] []; rr [66] [119;47] [] [[120;47]]]]%N in
+  valid_r (mkcase ins false) = true /\
+  (exists answers, model_robs (mkcase ins false) = VList [VInt 0; VList answers; VList []]) /\
+  spec_chain_code (fold_of ascii_tbl) ins false = 0%Z /\
+  spec_absorb_code (fold_of ascii_tbl) false [] (concat ins) = 1%Z.
+Proof. vm_compute. repeat split; try reflexivity. eexists. reflexivity. Qed.
